@@ -10,5 +10,6 @@ CONSTANTS
   GenNsChoices = {TRUE}
   Spellings = {"rel"}
   CanonNs = FALSE
+  SupportFromRootParent = FALSE
 INVARIANT Emit
 CHECK_DEADLOCK FALSE
